@@ -260,6 +260,7 @@ def run(ctx):
     saved_context_is_a_copy(ctx, "C02")
     resume_follows_clear(ctx, "C02")
     detector_walk_every_tick(ctx, "C02")
+    ruleset_state_is_per_instance(ctx)
     # locals / parameters the rules below refer to by name (a rename makes the analysis 'broken', never a violation)
     ctx.anchor(ctx.fn1('Oomd::Engine::Ruleset::runOnceImpl'), 'run_actions', 'dg', 'context')
     ctx.anchor(ctx.fn1('Oomd::Engine::Engine::runOnce'), 'base', 'dropin')
